@@ -106,8 +106,8 @@ type tokenSpec struct {
 	Variant int
 	Iss     string // issuer ("" = https://idp.verif)
 	Azp     string // authorized party claim ("" = absent)
-	Nbf     int64 // not-before claim (0 = absent)
-	Groups  int // number of group names in a "groups" claim (large tokens)
+	Nbf     int64  // not-before claim (0 = absent)
+	Groups  int    // number of group names in a "groups" claim (large tokens)
 }
 
 func signRS256(k *rsa.PrivateKey, input string) []byte {
